@@ -5,6 +5,7 @@ import (
 	"flag"
 	"fmt"
 	"os"
+	"strconv"
 	"syscall"
 )
 
@@ -23,6 +24,12 @@ type Config struct {
 	// are dropped).
 	CaseFile string
 	CaseData []byte
+	// Umask (-umask, octal; default 022): the process umask the unpack and bundle-roundtrip lanes run under.
+	// Any other value than 022 is outside the Lean filesystem model: those lanes then send no requests to
+	// the model and only the implementation-level oracles judge. UmaskGiven: the field was set (a Config
+	// built without it means 022).
+	Umask      int
+	UmaskGiven bool
 }
 
 var lanes = map[string]Lane{}
@@ -38,8 +45,14 @@ func main() {
 	work := flag.String("work", "", "scratch directory")
 	prop := flag.String("prop", "", "property id (projection)")
 	caseFile := flag.String("case", "", "replay file of bin/check: run its recorded input first through the lane (exact replay)")
+	umaskS := flag.String("umask", "022", "process umask (octal) for the unpack and bundle-roundtrip lanes; other values than 022 are outside the model: no model comparison, oracles only")
 	uid := flag.Int("uid", 0, "drop privileges to this uid/gid before running the lane (the work directory is chowned first)")
 	flag.Parse()
+	umask, uerr := strconv.ParseUint(*umaskS, 8, 12)
+	if uerr != nil || umask > 0777 {
+		fmt.Fprintf(os.Stderr, "bad -umask %q (octal, 0..777)\n", *umaskS)
+		os.Exit(2)
+	}
 	var caseData []byte
 	if *caseFile != "" {
 		// read while still privileged (replay files may live where an unprivileged lane cannot read)
@@ -90,7 +103,7 @@ func main() {
 		fmt.Fprintf(os.Stderr, "unknown lane %q\n", *lane)
 		os.Exit(2)
 	}
-	cfg := &Config{Seed: *seed, N: *n, Tier: *tier, Driver: *driver, Replay: *replay, Work: *work, Prop: *prop, CaseFile: *caseFile, CaseData: caseData}
+	cfg := &Config{Seed: *seed, N: *n, Tier: *tier, Driver: *driver, Replay: *replay, Work: *work, Prop: *prop, CaseFile: *caseFile, CaseData: caseData, Umask: int(umask), UmaskGiven: true}
 	rep := NewReport(*lane, *seed)
 	rep.prop = *prop
 	f(cfg, rep)
